@@ -4,9 +4,9 @@ not own.
 
 Every op line is self-contained:
 
-  op <id> <opname> <pkg> (cfg u s x v z l e r n) <parts…>
+  op <id> <opname> <pkg> (cfg u s x v z l e r n k) <parts…>
 
-`cfg` = the nine model variant flags (unnamedFixed shadowFixed crossFixed voidFixed zeroFixed lhsFixed errTypeFixed errRecvFixed typedNilFixed), parts
+`cfg` = the ten model variant flags (unnamedFixed shadowFixed crossFixed voidFixed zeroFixed lhsFixed errTypeFixed errRecvFixed typedNilFixed localsFixed), parts
 are lists with a head atom:
   (ps (<name> Z<k>)…)   parameters, `<>` = unnamed, `_` = blank; Z<k> = type of the corpus table
                         (bound by a `ty Z<k> <wire type>` prelude line)
@@ -67,9 +67,10 @@ def bit : SExp → Option Bool
 def parseFlags (args : List SExp) : Option Flags := do
   let c ← findList args "cfg"
   match ← c.mapM bit with
-  | [u, s, x, v, z, l, e, r, n] =>
+  | [u, s, x, v, z, l, e, r, n, k] =>
     some { plumb := { unnamedFixed := u, shadowFixed := s, crossFixed := x, voidFixed := v },
-           chain := { zeroFixed := z, lhsFixed := l, errTypeFixed := e, errRecvFixed := r, typedNilFixed := n } }
+           chain := { zeroFixed := z, lhsFixed := l, errTypeFixed := e, errRecvFixed := r, typedNilFixed := n,
+                      localsFixed := k } }
   | _ => none
 
 def tyId : SExp → Option Nat
@@ -277,7 +278,11 @@ def chainWf (s : DState) (fl : Flags) (kind : String) (args : List SExp) : Optio
   | "toerror" => do
     let ps ← parseParams args "ps"
     let eff := ErrChain.toErrorParams fl.plumb ps
-    some (ErrChain.toErrorWf fl.plumb ps, whyNames (Plumb.names eff) [Plumb.fName, ErrChain.errName])
+    let rs ← parseTyIds args "rs"
+    -- type 2 of the corpus table is bool
+    let why := if !(fl.chain.localsFixed || ErrChain.toErrorLocalsOk eff rs 2) then "locals"
+      else whyNames (Plumb.names eff) [Plumb.fName, ErrChain.errName]
+    some (ErrChain.toErrorWfExact fl.plumb fl.chain.localsFixed ps rs 2, why)
   | _ => none
 
 def fTag : Nat := 5
